@@ -892,6 +892,10 @@ class DNA(symbolic.Object):
       if not isinstance(self.value, str):
         raise ValueError(
             f'DNA value type mismatch, Value: {self.value!r}, Spec: {spec!r}.')
+      if self.children:
+        raise ValueError(
+            f'There is no DNA spec for child DNA values. '
+            f'Child values: {self.children}, Spec: {spec!r}.')
     self._spec = spec
     return self
 
